@@ -105,6 +105,13 @@ CHECKS = {
             'brute-force count that the library counting function must equal.',
             'Trusts CrossHair 0.0.110 + z3 and the harness ranking/counting code; parameter tuples are enumerated, '
             'the index is symbolic. Larger parameters are outside.', '6 C13'),
+    'C15': (OT, 'B+A', 'CrossHair symbolic execution of the real constructors and DerivationProcessor with the derived '
+                       'levels\' predicates as symbolic truth tables; concrete synthesis for every WithinTrial table pair',
+            'For WithinTrial, Transition and Window(start 0/1, ElseLevel) factors in three roles (crossed, constrained, '
+            'implied) CrossHair confirms over all tables: overlap <=> ValueError at construction, non-coverage <=> fatal '
+            'error entry; all 256 WithinTrial table pairs are synthesised concretely ([] iff uncovered, right level per '
+            'trial). Level placement for every model is R rule 3 in C01/C02.',
+            'Two-level factors over 2-level sources; CrossHair/z3 trusted.', '6 C15'),
     'C16': (OT, 'A+B', 'documented trial-count arithmetic (reference semantics rule 1) against the real constructors over '
                        'the design corpus; sequence lengths for all models via C01/C02, sampled per strategy here',
             'For every descriptor of the corpus (incl. Nest designs and the mode x alignment grid) '
@@ -149,6 +156,14 @@ CHECKS = {
             'preamble), Merge and Nest; both placements are proved equal to the reference scopes, and the two placements '
             'are shown to differ (a sat inclusion query) so a collapse of the scopes cannot pass.',
             'Reference rule 6 in vf/ref.py; trial counts that are not whole repetitions are outside.', '6 C26'),
+    'C27': (OT, 'B+A', 'CrossHair over the structure space of small CNFs and all support sizes through the real serialiser and '
+                       'parsers (in-memory files); z3 equivalence of the real blocking clause with the negated cube; forced-'
+                       'assignment runs of the solver output parsers',
+            'DIMACS text: clauses exact, header counts, sampling-set lines exactly 1..support in chunks <=10, library '
+            'parser round trip (confirmed over all paths per shape); update_file: for every sign pattern up to 5/8 '
+            'variables and 3 successive updates the appended clause is z3-equivalent to the negated cube and nothing else '
+            'changes; cryptominisat_solve / CMSGen / UniGen python paths / build_solution return the forced assignment.',
+            'Literal magnitudes are concrete per path (5 values); solver binaries trusted.', '6 C27'),
     'C28': (TV, 'A', 'independent OPB reader to z3 linear constraints; SMT equivalence with the real SAT encoding '
                      '(closure for exists-aux) and with the pseudo-Boolean meaning; blocking constraint equivalence',
             'For a sweep of requests (EQ/LT/GT, n<=5/7, k<=n+2) and seeded random clause sets with requests, the text '
